@@ -1,2 +1,165 @@
-def check(run): pass
-def replay(r): return []
+"""C17 inside run_turn: a turn yields only at a stage boundary (record sequence from Turn.tla), the yield
+reason follows wall-clock > stage budget > quantum (YieldRule.tla on the real scheduler record), and
+slice budgets clamp stage work (propagation pops/layers, retrieval hits used, plan ops)."""
+from __future__ import annotations
+
+import json
+import os
+import shutil
+import tempfile
+from typing import Any, Dict, List, Tuple
+
+from ..util import make_cfg, pmap
+
+
+def yield_case(case) -> List[Tuple[str, str]]:
+    from ..turnrun import Session
+    os.environ["CI"] = "true"
+    work = tempfile.mkdtemp(prefix="c17_", dir=case["workdir"])
+    try:
+        inp = dict(case["inp"])
+        s = Session(os.path.join(work, "s"))
+        o = s.run(inp)
+        fails: List[Tuple[str, str]] = []
+        if o.get("skipped"):
+            return [("YieldOnlyAtBoundary", f"{inp}: {o['skipped']}")]
+        if o["raised"]:
+            return [("YieldOnlyAtBoundary", f"{inp}: run_turn raised {o['raised']}")]
+        if o["log"] != list(case["log"]):
+            fails.append(("YieldOnlyAtBoundary", f"yield_at={inp.get('yield_at')} inp={ {k: v for k, v in inp.items() if v not in (False, [], 'ok', 5)} }: records {o['log']}, spec {list(case['log'])}"))
+        sched = [p for st, p in o["records"] if st == "scheduler.jsonl"]
+        if inp.get("yield_at", "none") != "none":
+            if len(sched) != 1:
+                fails.append(("YieldOnlyAtBoundary", f"{inp}: {len(sched)} scheduler records"))
+            else:
+                ev = sched[0]
+                if ev.get("stage_end") != inp["yield_at"]:
+                    fails.append(("YieldOnlyAtBoundary", f"{inp}: stage_end={ev.get('stage_end')}"))
+                # precedence on the real record: elapsed jumps by 10 s, wall_ms default 200 -> WALL_MS
+                want = _reason(ev.get("budgets") or {}, ev.get("quantum_ms"), ev.get("consumed") or {})
+                if ev.get("reason") not in want:
+                    fails.append(("ReasonPrecedence", f"{inp}: reason {ev.get('reason')}, documented precedence gives {sorted(want)} for budgets={ev.get('budgets')} consumed={ev.get('consumed')}"))
+                turn = [p for st, p in o["records"] if st == "turn.jsonl"][-1]
+                if not turn.get("yielded") or turn.get("yield_reason") != ev.get("reason"):
+                    fails.append(("YieldOnlyAtBoundary", f"{inp}: turn record {turn} does not carry the yield"))
+        elif sched:
+            fails.append(("YieldOnlyAtBoundary", f"{inp}: scheduler record without a yield: {sched}"))
+        return fails
+    finally:
+        shutil.rmtree(work, ignore_errors=True)
+
+
+def _reason(budgets, quantum, consumed):
+    """documented precedence, written from YieldRule.tla"""
+    ms = consumed.get("ms", 0)
+    if budgets.get("wall_ms") is not None and ms >= budgets["wall_ms"]:
+        return {"WALL_MS"}
+    hits = {("BUDGET_" + k.upper()) for k in ("t1_iters", "t1_pops", "t2_k", "t3_ops")
+            if budgets.get(k) is not None and consumed.get(k) is not None and consumed[k] >= budgets[k]}
+    if hits:
+        return hits
+    if quantum is not None and ms >= quantum:
+        return {"QUANTUM_EXCEEDED"}
+    return {None}
+
+
+def budget_case(case) -> List[Tuple[str, str]]:
+    """slice budgets clamp stage work; a used-up stage budget yields at that stage with a BUDGET_* reason
+    even when the quantum is exceeded as well, and WALL_MS wins over both"""
+    from ..turnrun import Session
+    from .. import engine as E
+    os.environ["CI"] = "true"
+    work = tempfile.mkdtemp(prefix="c17b_", dir=case["workdir"])
+    try:
+        b = case["budgets"]
+        over = {"scheduler": {"enabled": True, "quantum_ms": case["quantum"], "budgets": dict(b, wall_ms=case["wall"])}}
+        s = Session(os.path.join(work, "s"), base_cfg=over)
+        s.text = case["text"]
+        # scripted clock: constant, or a jump at the first boundary check
+        inp = {"sched": True, "cfg_extra": over}
+        o = s.run(inp)
+        fails: List[Tuple[str, str]] = []
+        if o["raised"]:
+            return [("BudgetsClamp", f"{case}: run_turn raised {o['raised']}")]
+        recs = {}
+        for st, p in o["records"]:
+            recs.setdefault(st, []).append(p)
+        t1 = (recs.get("t1.jsonl") or [{}])[0]
+        if b.get("t1_pops") is not None and int(t1.get("pops", 0)) > b["t1_pops"]:
+            fails.append(("BudgetsClamp", f"t1 pops {t1.get('pops')} > slice budget {b['t1_pops']}"))
+        if b.get("t1_iters") is not None and int(t1.get("iters", 0)) > b["t1_iters"]:
+            fails.append(("BudgetsClamp", f"t1 iters (layers) {t1.get('iters')} > slice budget {b['t1_iters']}"))
+        if "t2.jsonl" in recs and b.get("t2_k") is not None and int(recs["t2.jsonl"][0].get("k_used", 0)) > b["t2_k"]:
+            fails.append(("BudgetsClamp", f"t2 k_used {recs['t2.jsonl'][0].get('k_used')} > slice budget {b['t2_k']}"))
+        if "t3_plan.jsonl" in recs and b.get("t3_ops") is not None:
+            nops = sum(int(v) for v in (recs["t3_plan.jsonl"][0].get("ops_counts") or {}).values())
+            if nops > b["t3_ops"]:
+                fails.append(("BudgetsClamp", f"plan has {nops} ops > slice budget {b['t3_ops']}"))
+        sched = recs.get("scheduler.jsonl") or []
+        # reason precedence on whatever boundary fired (clock constant -> elapsed 0 -> only budgets can fire)
+        for ev in sched:
+            want = _reason(ev.get("budgets") or {}, ev.get("quantum_ms"), ev.get("consumed") or {})
+            if ev.get("reason") not in want:
+                fails.append(("ReasonPrecedence", f"{case}: reason {ev.get('reason')} but precedence gives {sorted(map(str, want))} (consumed {ev.get('consumed')})"))
+        # a stage whose consumption reached its budget must yield at that boundary (first such stage)
+        order = [("T1", "t1.jsonl", [("t1_iters", "iters"), ("t1_pops", "pops")]), ("T2", "t2.jsonl", [("t2_k", "k_used")])]
+        expect_stage = None
+        for stage, stream, pairs in order:
+            if stream not in recs:
+                break
+            if any(b.get(bk) is not None and int(recs[stream][0].get(mk, -1)) == b[bk] for bk, mk in pairs):
+                expect_stage = stage
+                break
+        if expect_stage and (not sched or sched[0].get("stage_end") != expect_stage):
+            fails.append(("YieldOnlyAtBoundary", f"{case}: budget used up at {expect_stage} but scheduler records are {[(e.get('stage_end'), e.get('reason')) for e in sched]}"))
+        if sched:
+            # nothing after the yield
+            names = [st for st, _ in o["records"]]
+            k = names.index("scheduler.jsonl")
+            if names[k + 1:] != ["turn.jsonl"]:
+                fails.append(("YieldOnlyAtBoundary", f"{case}: records after the yield: {names[k + 1:]}"))
+        return fails
+    finally:
+        shutil.rmtree(work, ignore_errors=True)
+
+
+def check(run) -> None:
+    q = run.quick
+    consts = {"MaxTurns": 1, "Vary": ["sched", "yield", "graph", "kill", "allow_refl", "plan_refl"] if not q else ["sched", "yield", "kill", "graph"],
+              "ForceOn": [], "FaultSites": [], "MaxFaults": 0, "StashCleared": True}
+    invs = ["YieldOnlyAtBoundary", "TurnCompletes", "KillSwitchInert", "NoArtefact", "VersionDiscipline"]
+    cfg = make_cfg(consts, invs, [], emit=False, view=None, constraint="EmitDone")
+    res = run.tlc("Turn", cfg, name="Turn_yield", workers=8, timeout_s=900)
+    run.model_must_hold(res)
+    cases = [{"inp": b["h"][0]["inp"], "log": b["h"][0]["log"], "workdir": run.workdir} for b in res.emitted]
+    for c, fails in zip(cases, pmap(yield_case, cases, chunk=2)):
+        run.traces += 1
+        run.case(("turn_yield", json.dumps(c["inp"], sort_keys=True)))
+        if not fails:
+            run.ok("Turn.yield_sequence_conforms")
+        for clause, msg in fails:
+            run.fail(clause, {"family": "turn", "clause": clause, "yield_at": c["inp"].get("yield_at")}, {k: v for k, v in c.items() if k != "workdir"}, msg,
+                     replay={"family": "turn_yield", "case": {k: v for k, v in c.items() if k != "workdir"}})
+    run.sample({"family": "turn_yield", "inp": cases[-1]["inp"], "log": cases[-1]["log"]}, cap=12)
+    # budgets
+    bcases = []
+    vals = {"t1_pops": [None, 0, 1, 3], "t1_iters": [None, 0, 1, 2] if not q else [None, 1], "t2_k": [None, 0, 1, 2], "t3_ops": [None, 0, 1, 2] if not q else [None, 1]}
+    import itertools
+    for pops, iters, k, ops in itertools.product(vals["t1_pops"], vals["t1_iters"], vals["t2_k"], vals["t3_ops"]):
+        b = {kk: vv for kk, vv in (("t1_pops", pops), ("t1_iters", iters), ("t2_k", k), ("t3_ops", ops)) if vv is not None}
+        for text in (["I like apple and banana"] if q else ["I like apple and banana", "cherry pie"]):
+            bcases.append({"budgets": b, "quantum": 20, "wall": 200, "text": text, "workdir": run.workdir})
+    for c, fails in zip(bcases, pmap(budget_case, bcases, chunk=2)):
+        run.traces += 1
+        run.case(("turn_budget", json.dumps({k: v for k, v in c.items() if k != "workdir"}, sort_keys=True)))
+        if not fails:
+            run.ok("Turn.budgets_clamp")
+        for clause, msg in fails:
+            run.fail(clause, {"family": "turn", "clause": clause}, {k: v for k, v in c.items() if k != "workdir"}, msg,
+                     replay={"family": "turn_budget", "case": {k: v for k, v in c.items() if k != "workdir"}})
+
+
+def replay(r) -> List[Tuple[str, str]]:
+    os.makedirs("/verif/.work/C17", exist_ok=True)
+    c = dict(r["case"], workdir="/verif/.work/C17")
+    return yield_case(c) if r["family"] == "turn_yield" else budget_case(c)
